@@ -54,6 +54,8 @@ def fold_replies(L, repo):
         ("CMD MEASURE 941600 with result", b"CMD MEASURE 941600\0", (0, ["-90"]), [b"RSP MEASURE 0 941600 -90\0"]),
         ("CMD NOMTXPOWER with result", b"CMD NOMTXPOWER\0", (0, ["50"]), [b"RSP NOMTXPOWER 0 50\0"]),
         ("CMD SETFORMAT 7 answered 1", b"CMD SETFORMAT 7\0", 1, [b"RSP SETFORMAT 1 7\0"]),
+        ("CMD POWEROFF without the terminating NUL", b"CMD POWEROFF", 0, [b"RSP POWEROFF 0\0"]),
+        ("CMD RXTUNE 941600 without the terminating NUL", b"CMD RXTUNE 941600", 0, [b"RSP RXTUNE 0 941600\0"]),
         ("handler raises ValueError", b"CMD RXTUNE abc\0", "raise", "negative"),
         ("datagram that is not text", b"\xff\xfe\x00", 0, []),
         ("datagram without the CMD signature", b"XYZ 1\0", 0, []),
